@@ -1166,3 +1166,238 @@ Qed.
 
 Theorem monotone_partial c s : reach_serial c s -> nondecreasing_newest_first (s_pubs s).
 Proof. intros R. apply (mi_nd _ (proj2 (reach_serial_inv _ _ R))). Qed.
+
+
+(* ------------------------------------------------------------------ leftovers never block a restart *)
+Definition orphan (seg idx : smap) (k : Z) : Prop := exists bs, lookup k seg = Some bs /\ has k idx = false.
+Definition tiled (seg idx : smap) (h : Z) : Prop :=
+  h = 0 \/ exists k bs, complete seg idx k bs /\ k < h /\ last_off bs + 1 = h.
+
+Record TInv (h : Z) (s : state) : Prop := mkTInv {
+  ti_tiled : tiled (s_seg s) (s_idx s) h;
+  ti_orph : forall k, orphan (s_seg s) (s_idx s) k -> k = h
+}.
+
+Record TDead (h : Z) (s : state) : Prop := mkTDead {
+  td_tiled : tiled (s_seg s) (s_idx s) h;
+  td_orph : forall k, orphan (s_seg s) (s_idx s) k -> k = h;
+  td_store : s_store s <= h;
+  td_k1 : forall k bs, complete (s_seg s) (s_idx s) k bs -> k <= h;
+  td_seglt : forall k bs, complete (s_seg s) (s_idx s) k bs -> k < h -> last_off bs < h
+}.
+
+Definition Inv2 (s : state) : Prop :=
+  if s_live s then exists h, LInv h s /\ TInv h s else DInv s /\ exists h, TDead h s.
+
+Lemma linv_unique h1 h2 s : LInv h1 s -> LInv h2 s -> h1 = h2.
+Proof.
+  intros A B. pose proof (chain_head _ _ _ (li_pend _ _ A)). pose proof (chain_head _ _ _ (li_pend _ _ B)). congruence.
+Qed.
+
+(* what a step does to S3 *)
+Lemma step_s3 s e s' : step s e = Some s' ->
+  (s_seg s' = s_seg s /\ s_idx s' = s_idx s) \/
+  (exists t, e = EUpSeg t true /\ s_seg s' = put (art_key (s_fl s)) (s_fl s) (s_seg s) /\ s_idx s' = s_idx s) \/
+  (exists t, e = EUpIdx t true /\ s_seg s' = s_seg s /\ s_idx s' = put (art_key (s_fl s)) (s_fl s) (s_idx s)).
+Proof.
+  intros H. destruct e; cbn [step] in H.
+  all: try (destruct (negb (s_live s)); [discriminate|]).
+  all: try (destruct (s_live s); [discriminate|]).
+  - destruct (s_pcs s t); try discriminate. destruct (parse_hdr raw) as [[? ?]|]; [|inversion H; subst; auto].
+    destruct (should_flush _ _ && _); inversion H; subst; auto.
+  - destruct (s_pcs s t); try discriminate. destruct (s_owner s); try discriminate.
+    destruct (s_buf s); [destruct (s_clast s)|]; inversion H; subst; auto.
+  - destruct (s_pcs s t) as [| |? ? sg ?| |]; try discriminate. destruct sg; try discriminate.
+    inversion H; subst; cbn. destruct ok; [right; left; eauto|auto].
+  - destruct (s_pcs s t) as [| |? ? ? ix| |]; try discriminate. destruct ix; try discriminate.
+    inversion H; subst; cbn. destruct ok; [right; right; eauto|auto].
+  - destruct (s_pcs s t) as [| |? ? sg ix| |]; try discriminate. destruct sg; try discriminate. destruct ix; try discriminate. inversion H; subst; auto.
+  - destruct (s_pcs s t) as [| |? ? sg ix| |]; try discriminate. destruct sg, ix; try discriminate; inversion H; subst; auto.
+  - destruct (s_pcs s t); try discriminate. inversion H; subst; auto.
+  - destruct (s_pcs s t) as [| | | |? ok]; try discriminate. inversion H; subst. auto.
+  - inversion H; subst; auto.
+  - destruct (restore _ _ _); inversion H; subst; auto.
+  - inversion H; subst; auto.
+Qed.
+
+Lemma tinv_same h s s' : TInv h s -> s_seg s' = s_seg s -> s_idx s' = s_idx s -> TInv h s'.
+Proof. intros [A B] E1 E2. constructor; rewrite E1, E2; assumption. Qed.
+
+Lemma tinv_put_seg h s s' fl : TInv h s -> s_seg s' = put h fl (s_seg s) -> s_idx s' = s_idx s -> TInv h s'.
+Proof.
+  intros [A B] E1 E2. constructor; rewrite E1, E2.
+  - destruct A as [A|(k & bs & [C1 C2] & L & E)]; [now left|right]. exists k, bs. repeat split; auto.
+    rewrite lookup_put_other by lia. exact C1.
+  - intros k (bs & L & Hn). destruct (Z.eq_dec k h) as [->|N]; [reflexivity|].
+    rewrite lookup_put_other in L by assumption. apply B. exists bs. auto.
+Qed.
+
+Lemma tinv_put_idx h s s' fl : TInv h s -> s_seg s' = s_seg s -> s_idx s' = put h fl (s_idx s) -> TInv h s'.
+Proof.
+  intros [A B] E1 E2. constructor; rewrite E1, E2.
+  - destruct A as [A|(k & bs & [C1 C2] & L & E)]; [now left|right]. exists k, bs. repeat split; auto.
+    now apply has_put_mono.
+  - intros k (bs & L & Hn). destruct (Z.eq_dec k h) as [->|N]; [reflexivity|].
+    rewrite has_put_other in Hn by assumption. apply B. exists bs. auto.
+Qed.
+
+Lemma step_inv2_live h s e s' :
+  s_live s = true -> LInv h s -> TInv h s -> step s e = Some s' -> Inv2 s'.
+Proof.
+  intros Lv I T H.
+  assert (Inv s) as IS by (unfold Inv; rewrite Lv; eauto).
+  pose proof (step_inv _ _ _ IS H) as IS'.
+  destruct (Nat.eq_dec 0 0) as [_|]; [|congruence].
+  destruct e.
+  - destruct (inv_append _ _ _ _ _ Lv I H) as (L & J). unfold Inv2. rewrite L. exists h. split; [exact J|].
+    destruct (step_s3 _ _ _ H) as [[E1 E2]|[(t0 & Q & _)|(t0 & Q & _)]]; try discriminate. eapply tinv_same; eauto.
+  - destruct (inv_flushbegin _ _ _ _ Lv I H) as (L & J). unfold Inv2. rewrite L. exists h. split; [exact J|].
+    destruct (step_s3 _ _ _ H) as [[E1 E2]|[(t0 & Q & _)|(t0 & Q & _)]]; try discriminate. eapply tinv_same; eauto.
+  - destruct (inv_upseg _ _ _ _ _ Lv I H) as (L & J). unfold Inv2. rewrite L. exists h. split; [exact J|].
+    destruct (step_s3 _ _ _ H) as [[E1 E2]|[(t0 & Q & E1 & E2)|(t0 & Q & _)]]; try discriminate; [eapply tinv_same; eauto|].
+    assert (art_key (s_fl s) = h) as K.
+    { cbn [step] in H. rewrite Lv in H. cbn [negb] in H. destruct (s_pcs s t) as [| |o b sg ix| |] eqn:Pt; try discriminate.
+      pose proof (li_pcs _ _ I t) as Pb. rewrite Pt in Pb. cbn in Pb. destruct Pb as (Ow & _).
+      destruct (li_own _ _ I _ Ow) as (Nfl & _). eapply chain_art_key; [apply (li_pend _ _ I)|exact Nfl]. }
+    rewrite K in E1. eapply tinv_put_seg; eauto.
+  - destruct (inv_upidx _ _ _ _ _ Lv I H) as (L & J). unfold Inv2. rewrite L. exists h. split; [exact J|].
+    destruct (step_s3 _ _ _ H) as [[E1 E2]|[(t0 & Q & _)|(t0 & Q & E1 & E2)]]; try discriminate; [eapply tinv_same; eauto|].
+    assert (art_key (s_fl s) = h) as K.
+    { cbn [step] in H. rewrite Lv in H. cbn [negb] in H. destruct (s_pcs s t) as [| |o b sg ix| |] eqn:Pt; try discriminate.
+      pose proof (li_pcs _ _ I t) as Pb. rewrite Pt in Pb. cbn in Pb. destruct Pb as (Ow & _).
+      destruct (li_own _ _ I _ Ow) as (Nfl & _). eapply chain_art_key; [apply (li_pend _ _ I)|exact Nfl]. }
+    rewrite K in E2. eapply tinv_put_idx; eauto.
+  - (* commit *)
+    destruct (inv_commit _ _ _ _ Lv I H) as (L & h' & Hle & J). unfold Inv2. rewrite L. exists h'. split; [exact J|].
+    destruct (step_s3 _ _ _ H) as [[E1 E2]|[(t0 & Q & _)|(t0 & Q & _)]]; try discriminate.
+    cbn [step] in H. rewrite Lv in H. cbn [negb] in H.
+    destruct (s_pcs s t) as [| |o b sg ix| |] eqn:Pt; try discriminate.
+    destruct sg; try discriminate. destruct ix; try discriminate.
+    pose proof (li_pcs _ _ I t) as Pb. rewrite Pt in Pb. cbn in Pb. destruct Pb as (Ow & Psg & Pix & _).
+    specialize (Psg eq_refl). specialize (Pix eq_refl).
+    destruct (li_own _ _ I _ Ow) as (Nfl & _).
+    pose proof (li_pend _ _ I) as Cp. apply chain_app in Cp as (mid & C1 & C2).
+    destruct (chain_last _ _ _ C1 Nfl) as (_ & Lh & Hm). subst mid.
+    assert (h' = last_off (s_fl s) + 1) as ->.
+    { inversion H; subst. pose proof (chain_head _ _ _ (li_pend _ _ J)) as X. cbn in X.
+      pose proof (chain_head _ _ _ C2) as Y. congruence. }
+    constructor; rewrite E1, E2.
+    + right. exists h, (s_fl s). repeat split; auto. lia.
+    + intros k (bs & Lk & Hn). pose proof (ti_orph _ _ T k (ex_intro _ bs (conj Lk Hn))). subst k. congruence.
+  - destruct (inv_failreset _ _ _ _ Lv I H) as (L & J). unfold Inv2. rewrite L. exists h. split; [exact J|].
+    destruct (step_s3 _ _ _ H) as [[E1 E2]|[(t0 & Q & _)|(t0 & Q & _)]]; try discriminate. eapply tinv_same; eauto.
+  - destruct (inv_callback _ _ _ _ _ Lv I H) as (L & J). unfold Inv2. rewrite L. exists h. split; [exact J|].
+    destruct (step_s3 _ _ _ H) as [[E1 E2]|[(t0 & Q & _)|(t0 & Q & _)]]; try discriminate. eapply tinv_same; eauto.
+  - destruct (inv_respond _ _ _ _ Lv I H) as (L & J). unfold Inv2. rewrite L. exists h. split; [exact J|].
+    destruct (step_s3 _ _ _ H) as [[E1 E2]|[(t0 & Q & _)|(t0 & Q & _)]]; try discriminate. eapply tinv_same; eauto.
+  - (* crash *)
+    destruct (inv_crash _ _ _ Lv I H) as (L & J). unfold Inv2. rewrite L. split; [exact J|]. exists h.
+    destruct (step_s3 _ _ _ H) as [[E1 E2]|[(t0 & Q & _)|(t0 & Q & _)]]; try discriminate.
+    assert (s_store s' = s_store s) as E3.
+    { cbn [step] in H. rewrite Lv in H. cbn [negb] in H. inversion H; reflexivity. }
+    destruct (linv_bounds _ _ I) as (_ & _ & P).
+    constructor; rewrite ?E1, ?E2, ?E3.
+    + apply (ti_tiled _ _ T).
+    + apply (ti_orph _ _ T).
+    + apply P. apply (li_store _ _ I).
+    + apply (li_k1 _ _ I).
+    + apply (li_seglt _ _ I).
+  - cbn [step] in H. rewrite Lv in H. discriminate.
+  - cbn [step] in H. rewrite Lv in H. discriminate.
+Qed.
+Lemma scan_none next seg idx keys : forall best,
+  restore_scan next seg idx keys best = None ->
+  exists k, orphan seg idx k /\ k < next.
+Proof.
+  induction keys as [|k keys IH]; intros best H; cbn [restore_scan] in H; [discriminate|].
+  destruct (lookup k seg) as [bs|] eqn:L; [|eauto].
+  destruct (has k idx) eqn:Hk; [eauto|].
+  destruct (next <=? k) eqn:Q; [eauto|]. exists k. split; [exists bs; auto|lia].
+Qed.
+
+Lemma restore_no_err s h : TDead h s -> restore (s_store s) (s_seg s) (s_idx s) <> RErr.
+Proof.
+  intros T E. unfold restore in E.
+  destruct (restore_scan (s_store s) (s_seg s) (s_idx s) (map fst (s_seg s)) None) as [[[? ?]|]|] eqn:Q; try discriminate.
+  apply scan_none in Q as (k & O & L). pose proof (td_orph _ _ T k O). pose proof (td_store _ _ T). lia.
+Qed.
+
+Lemma step_inv2_dead s e s' h :
+  s_live s = false -> DInv s -> TDead h s -> step s e = Some s' -> Inv2 s'.
+Proof.
+  intros Lv D T H.
+  destruct (step_live_only _ _ _ Lv H) as [->|[ok ->]].
+  - cbn [step] in H. rewrite Lv in H. inversion H; subst. unfold Inv2. rewrite Lv. eauto.
+  - pose proof (inv_restart _ _ _ Lv D H) as IS'.
+    cbn [step] in H. rewrite Lv in H.
+    pose proof (restore_spec (s_store s) (s_seg s) (s_idx s)) as R.
+    pose proof (restore_no_err _ _ T) as NE.
+    destruct T as [Tt To Ts Tk Tl].
+    destruct D as [Da [W O] [Ds Dn] Dp].
+    destruct (restore (s_store s) (s_seg s) (s_idx s)) as [| |l] eqn:E; [congruence| |].
+    + (* nothing complete in S3 *)
+      inversion H; subst; clear H. unfold Inv, Inv2 in *. cbn in *. destruct IS' as (h' & J). exists h'. split; [exact J|].
+      assert (h' = s_store s) as -> by (pose proof (chain_head _ _ _ (li_pend _ _ J)) as X; cbn in X; congruence).
+      assert (h = 0) as -> by (destruct Tt as [?|(k & bs & C & _)]; [assumption|exfalso; eapply R; eauto]).
+      assert (s_store s = 0) as St by lia.
+      constructor; cbn; rewrite St.
+      * now left.
+      * exact To.
+    + destruct R as (kb & bsb & Cb & -> & Mx).
+      inversion H; subst; clear H. unfold Inv, Inv2 in *. cbn in *. destruct IS' as (h' & J). exists h'. split; [exact J|].
+      set (l := last_off bsb) in *.
+      assert (h' = if s_store s <=? l then l + 1 else s_store s) as Eh
+        by (pose proof (chain_head _ _ _ (li_pend _ _ J)) as X; cbn in X; congruence).
+      destruct (W _ _ (proj1 Cb)) as (Nb & Chb & Kpos).
+      destruct (chain_last _ _ _ Chb Nb) as (_ & Kle & _). fold l in Kle.
+      pose proof (Tk _ _ Cb) as Kh.
+      destruct (Z.eq_dec kb h) as [->|Nk].
+      * (* the frontier object itself is complete: no orphan exists *)
+        assert (h' = l + 1) as -> by (rewrite Eh; destruct (s_store s <=? l) eqn:Q; lia).
+        constructor; cbn.
+        -- right. exists h, bsb. repeat split; try apply Cb; lia.
+        -- intros k Ok. pose proof (To k Ok). subst k. destruct Ok as (bs & _ & Hn). destruct Cb as [_ Hb]. congruence.
+      * (* h is exactly the end of the complete objects *)
+        assert (last_off bsb < h) as Ll by (apply (Tl _ _ Cb); lia).
+        assert (h = l + 1) as Hh.
+        { destruct Tt as [->|(k0 & bs0 & C0 & L0 & E0)]; [lia|].
+          pose proof (Mx _ _ C0) as M0. destruct (Z.eq_dec k0 kb) as [->|N0].
+          - destruct C0 as [C0 _], Cb as [Cb' _]. rewrite C0 in Cb'. inversion Cb'; subst. reflexivity.
+          - assert (last_off bs0 < kb) by (eapply O; eauto; lia). lia. }
+        assert (h' = h) as -> by (rewrite Eh; destruct (s_store s <=? l) eqn:Q; lia).
+        constructor; cbn.
+        -- right. exists kb, bsb. repeat split; try apply Cb; lia.
+        -- exact To.
+Qed.
+
+Lemma step_inv2 s e s' : Inv2 s -> step s e = Some s' -> Inv2 s'.
+Proof.
+  intros I H. unfold Inv2 in I. destruct (s_live s) eqn:Lv.
+  - destruct I as (h & I & T). eapply step_inv2_live; eauto.
+  - destruct I as (D & h & T). eapply step_inv2_dead; eauto.
+Qed.
+
+Lemma init_inv2 c : Inv2 (init c).
+Proof.
+  pose proof (init_inv c) as I. unfold Inv, Inv2 in *. cbn in *. destruct I as (h & I). exists h. split; [exact I|].
+  assert (h = 0) as -> by (pose proof (chain_head _ _ _ (li_pend _ _ I)) as X; cbn in X; congruence).
+  constructor; cbn; [now left|]. intros k (bs & L & _). discriminate.
+Qed.
+
+Lemma run_inv2 evs : forall s s', Inv2 s -> run s evs = Some s' -> Inv2 s'.
+Proof.
+  induction evs as [|e evs IH]; intros s s' I H; cbn [run] in H.
+  - inversion H; subst; exact I.
+  - destruct (step s e) as [s1|] eqn:E; [|discriminate]. eapply IH; [|exact H]. eapply step_inv2; eauto.
+Qed.
+
+(* after any history, a restart that meets no transient fault succeeds: a leftover
+   .kfs without .index never lies below the stored next_offset *)
+Theorem restart_never_blocked c evs s ok :
+  run (init c) evs = Some s -> s_live s = false ->
+  exists s', step s (ERestart ok) = Some s' /\ s_live s' = true.
+Proof.
+  intros H Lv. pose proof (run_inv2 _ _ _ (init_inv2 c) H) as I. unfold Inv2 in I. rewrite Lv in I.
+  destruct I as (D & h & T). pose proof (restore_no_err _ _ T) as NE.
+  cbn [step]. rewrite Lv. destruct (restore (s_store s) (s_seg s) (s_idx s)); [congruence| |]; eexists; split; reflexivity.
+Qed.
